@@ -676,7 +676,12 @@ func (s *UtxoStore) ScriptAddressBalance(tx mwdb.ReadTransaction, scripts map[st
 	nsUnspent := tx.FetchBucket(s.bucketMeta.nsUnspent)
 	nsCredits := tx.FetchBucket(s.bucketMeta.nsCredits)
 
-	iter := nsUnspent.NewIterator(mwdb.BytesPrefix([]byte(s.ksmgr.CurrentKeystore().Name())))
+	// the selected wallet may have been removed since the caller looked
+	am := s.ksmgr.CurrentKeystore()
+	if am == nil {
+		return nil, ErrNotFound
+	}
+	iter := nsUnspent.NewIterator(mwdb.BytesPrefix([]byte(am.Name())))
 	defer iter.Release()
 
 	cred := &credit{
@@ -782,7 +787,12 @@ func (s *UtxoStore) ScriptAddressUnspents(tx mwdb.ReadTransaction, scriptAddrs m
 	var op wire.OutPoint
 	var block BlockMeta
 
-	iter := nsUnspent.NewIterator(mwdb.BytesPrefix([]byte(s.ksmgr.CurrentKeystore().Name())))
+	// the selected wallet may have been removed since the caller looked
+	am := s.ksmgr.CurrentKeystore()
+	if am == nil {
+		return nil, ErrNotFound
+	}
+	iter := nsUnspent.NewIterator(mwdb.BytesPrefix([]byte(am.Name())))
 	defer iter.Release()
 
 	for iter.Next() {
